@@ -189,6 +189,9 @@ def gen_op(rng, world, state):
             pos, pc = rng.choice(lent), "+lent-lp"
         elif r < 0.33:
             pos, pc = [60, 120], "+unknown-lp"
+        if rng.random() < 0.2 and dep > 0:
+            rate = D(rng.choice(["1.2", "1.5", "1.500001", "2", "3"]))
+            return {"k": k, "deposit": dep, "mint": D(0), "byRate": rate, "vk": vk, "pos": pos}, f"{vc}:by-rate{rate}{pc}"
         return {"k": k, "deposit": dep, "mint": mint, "vk": vk, "pos": pos}, f"{vc}:dep{'0' if dep == 0 else ('<.5' if dep < D('0.5') else '')}:mint{frac}{pc}"
     if k == "deposit":
         vk, vc = some_vault()
@@ -274,7 +277,7 @@ def parse_env(e):
 
 def parse_op(o):
     r = dict(o)
-    for f in ("deposit", "mint", "eth", "burn", "withdraw"):
+    for f in ("deposit", "mint", "eth", "burn", "withdraw", "byRate"):
         if f in r and r[f] is not None:
             r[f] = D(str(r[f]))
     return r
